@@ -644,7 +644,7 @@ def gen_cases(ctx):
         fl = rng.choice([GLITCHES, GLITCHES, (503,), (500, 504), ()])
         return [rng.choice((10, 10, None, 0, 1, 2, 3, 4)), rng.choice((0, 1, 2)), opt(3), opt(3), list(fl)]
 
-    for _ in range(ctx.scale(700, 12000)):
+    for _ in range(ctx.scale(620, 12000)):
         pi = rng.randrange(len(pls))
         n = rng.randint(1, 6)
         fs = [rand_sym(pls[pi]) for _ in range(n)]
@@ -683,7 +683,7 @@ def gen_cases(ctx):
         return fs
 
     for form in USER_FORMS:
-        for _ in range(ctx.scale(22, 300)):
+        for _ in range(ctx.scale(16, 300)):
             pi = rng.randrange(len(pls))
             fs = transient_script(pls[pi], rng.randint(1, 9))
             if rng.random() < 0.3:
@@ -691,6 +691,21 @@ def gen_cases(ctx):
             fsb = transient_script(pls[pi], rng.choice((0, 0, 1, 3)), cut=[0, 3, 20, 60]) if fs[-1] == [0, 404] else []
             cases.append(dict(kind='chunk', cfg=list(form), payload=pi, fs=fs, fsb=fsb, bucket=rng.choice((0, 0, 1, 2)),
                               verified=False))
+    # (d'') the edges of the store-level budget for every number / pair / not-given form: exactly `read` cut bodies and
+    #       one more, exactly 5 glitch statuses and one more, both budgets used up together, and (form [6]) the total of 10
+    def boundary_scripts(form, cut):
+        read = 2 if not form else form[-1]
+        T, S = [1, cut], [0, 503]
+        out = [[T] * read, [T] * (read + 1), [S] * 5, [S] * 6, [S] * 5 + [T] * read, [T] * read + [S] * 5 + [[0, 403]],
+               [S] * 3 + [T] * (read + 1)]
+        return [[list(x) for x in fs] for fs in out if len(fs) <= 12]
+
+    for form in list(USER_FORMS) + [[6], [0, 5]]:
+        pi = rng.randrange(len(pls) - 1)
+        for fs in boundary_scripts(form, rng.choice(offsets(pls[pi]))):
+            cases.append(dict(kind='chunk', cfg=list(form), payload=pi, fs=fs, fsb=[], bucket=0, verified=False))
+        for fs in boundary_scripts(form, rng.choice((0, 7, 100))):
+            cases.append(dict(kind='rdb', cfg=list(form), fs=fs, how=rng.choice(RDB_ENTRIES)))
     # (e) data sets opened from an http RDB URL: TelstateDataSource.from_url(chunk_store=None | auto), katdal.open
     nr = len(rdb_bytes())
     rsyms = [[0, 503], [0, 500], [1, 0], [1, 7], [1, nr - 1], [2, 100], [4, 0], [4, 2], [0, 404], [0, 403], [0, 400]]
@@ -711,11 +726,11 @@ def gen_cases(ctx):
     cuts = [0, 7, 100, nr - 1]
     for form in USER_FORMS:
         for s1 in rsyms:
-            for how in RDB_ENTRIES:
+            for how in RDB_ENTRIES if thorough or form in ([], [2], [0, 1], [1, 3]) else (rng.choice(RDB_ENTRIES),):
                 cases.append(dict(kind='rdb', cfg=list(form), fs=[list(s1)], how=how))
         cases.append(dict(kind='rdb', cfg=list(form), fs=[], how=rng.choice(RDB_ENTRIES)))
         for fs in itertools.product(rsyms, repeat=2):
-            if thorough or rng.random() < 0.25:
+            if thorough or rng.random() < 0.15:
                 cases.append(dict(kind='rdb', cfg=list(form), fs=[list(x) for x in fs], how=rng.choice(RDB_ENTRIES)))
         for _ in range(ctx.scale(14, 250)):
             fs = transient_script(None, rng.randint(2, 9), cut=cuts)
@@ -1734,13 +1749,12 @@ def run(ctx):
                 run_cases(ctx, [json.load(open(os.path.join(cdir, fn)))])
     if ctx.model_ok and not _state.get('stale'):
         _state['expected_paths'] = expected_paths(ctx)
-    run_cases(ctx, url_cases(ctx))
-    run_cases(ctx, token_cases(ctx))
-    run_cases(ctx, hist_cases(ctx))
-    run_cases(ctx, site_cases(ctx))
-    run_cases(ctx, session_cases(ctx))
-    run_cases(ctx, gen_cases(ctx))
-    run_cases(ctx, budget_cases(ctx))
+    walls = ctx.extra.setdefault('wall_s_by_case_family', {})
+    for name, gen in (('url', url_cases), ('token', token_cases), ('tokhist', hist_cases), ('site', site_cases),
+                      ('session', session_cases), ('chunk+rdb', gen_cases), ('budget', budget_cases)):
+        t0 = time.time()
+        run_cases(ctx, gen(ctx))
+        walls[name] = round(time.time() - t0, 1)
     ctx.exhaustive = False
     ctx.extra['exhaustive_part'] = ('all fault scripts of length <= %d over the %d fast symbols for the 9 (read, status) '
                                     'budgets in {0,1,2}^2 (18 symbols for the zero-size payload); all histories of <= 2 get_chunk calls on one store object '
